@@ -4,77 +4,7 @@
    the answer must be, P = 1 iff the case lies inside the property's domain. *)
 open Model
 
-(* ---------- Z <-> string ---------- *)
-let rec pos_of_int (n : int) : positive =
-  if n = 1 then XH
-  else if n land 1 = 0 then XO (pos_of_int (n lsr 1))
-  else XI (pos_of_int (n lsr 1))
-let z_of_int (n : int) : z =
-  if n = 0 then Z0 else if n > 0 then Zpos (pos_of_int n) else Zneg (pos_of_int (-n))
-let z10 = z_of_int 10
-let z_of_string (s : string) : z =
-  let neg = String.length s > 0 && s.[0] = '-' in
-  let body = if neg then String.sub s 1 (String.length s - 1) else s in
-  if String.length body <= 17 then
-    let v = int_of_string body in z_of_int (if neg then -v else v)
-  else begin
-    let acc = ref Z0 in
-    String.iter (fun c ->
-      acc := Z.add (Z.mul !acc z10) (z_of_int (Char.code c - 48))) body;
-    if neg then Z.opp !acc else !acc
-  end
-let rec int_of_pos (p : positive) : int =
-  match p with XH -> 1 | XO q -> 2 * int_of_pos q | XI q -> 2 * int_of_pos q + 1
-let rec pos_bits (p : positive) : int =
-  match p with XH -> 1 | XO q | XI q -> 1 + pos_bits q
-let string_of_z (v : z) : string =
-  let small p = pos_bits p <= 61 in
-  match v with
-  | Z0 -> "0"
-  | Zpos p when small p -> string_of_int (int_of_pos p)
-  | Zneg p when small p -> string_of_int (- (int_of_pos p))
-  | _ ->
-    let neg = (match v with Zneg _ -> true | _ -> false) in
-    let a = ref (if neg then Z.opp v else v) in
-    let buf = Buffer.create 24 in
-    let digits = ref [] in
-    while !a <> Z0 do
-      let (q, r) = Z.div_eucl !a z10 in
-      digits := (match r with Z0 -> 0 | Zpos p -> int_of_pos p | Zneg _ -> 0) :: !digits;
-      a := q
-    done;
-    if neg then Buffer.add_char buf '-';
-    List.iter (fun d -> Buffer.add_char buf (Char.chr (48 + d))) !digits;
-    Buffer.contents buf
-let int_of_z (v : z) : int =
-  match v with Z0 -> 0 | Zpos p -> int_of_pos p | Zneg p -> - (int_of_pos p)
-let rec nat_of_int (n : int) : nat = if n <= 0 then O else S (nat_of_int (n - 1))
-let rec int_of_nat (n : nat) : int = match n with O -> 0 | S k -> 1 + int_of_nat k
-
-(* ---------- bytes <-> hex ---------- *)
-let bytes_of_hex (h : string) : z list =
-  if h = "-" then [] else begin
-    let n = String.length h / 2 in
-    List.init n (fun i -> z_of_int (int_of_string ("0x" ^ String.sub h (2 * i) 2)))
-  end
-let hex_of_bytes (l : z list) : string =
-  if l = [] then "-" else
-  String.concat "" (List.map (fun b -> Printf.sprintf "%02x" ((int_of_z b) land 255)) l)
-
-let string_of_err = function
-  | Overflow -> "Overflow" | OOB -> "OOB" | Uninit -> "Uninit" | Precond -> "Precond" | Fuel -> "Fuel"
-let show_res (f : 'a -> string) (r : 'a res) : string =
-  match r with OK a -> f a | Err e -> "ERR:" ^ string_of_err e
-
-let show_fields (f : fields) : string =
-  String.concat " " (List.map string_of_z [f.fy; f.fm; f.fd; f.fhh; f.fmm; f.fss])
-
-let zi a i = z_of_string a.(i)
-let b2s b = if b then "1" else "0"
-let all_in64 l = List.for_all in64 l
-
-(* result triple *)
-let out m s p = Printf.sprintf "M %s ; S %s ; P %s" m s (b2s p)
+open Util
 
 (* spec-normalised civil time of six ctor args, aligned *)
 let spec_ct tag a off =
